@@ -122,7 +122,7 @@ func gen(r *vc.Rand, thorough bool) (untimed, timed []job) {
 	for i := 0; i < nHist; i++ {
 		b := vc.Pick(r, backends)
 		tids := []string{vc.Pick(r, idPool), vc.Pick(r, idPool), "t3"}
-		ttls := vc.Pick(r, []string{"0,0,0", "0,60000,1000", "5000,0,0"})
+		ttls := vc.Pick(r, []string{"0,0,0", "0,60000,2000", "5000,0,0"})
 		n := 5 + r.Intn(10)
 		var evs []string
 		for k := 0; k < n; k++ {
@@ -140,7 +140,7 @@ func gen(r *vc.Rand, thorough bool) (untimed, timed []job) {
 			case 9:
 				evs = append(evs, end(node, tid))
 			case 10:
-				evs = append(evs, fmt.Sprintf("advs:%d", vc.Pick(r, []int{1, 999, 1000, 4999, 5000, 29999, 30000, 59999, 60000, 86399999, 86400000})))
+				evs = append(evs, fmt.Sprintf("advs:%d", vc.Pick(r, []int{1, 1999, 2000, 4999, 5000, 29999, 30000, 59999, 60000, 86399999, 86400000})))
 			case 11:
 				evs = append(evs, fmt.Sprintf("rega:%d:%s:%s", node, hx(vc.Pick(r, nids)), hx(vc.Pick(r, addrs))))
 			case 12:
@@ -156,32 +156,49 @@ func gen(r *vc.Rand, thorough bool) (untimed, timed []job) {
 		untimed = append(untimed, job{cs: "X " + mk(b, "0,0", []string{fmtRec("reg", 0, bad), look(1, bad.tid)}), count: "gen:excluded-invalid-utf8"})
 	}
 
-	// --- 5. real time: short ttls, sleeps; all instants are ≥ 50 ms away from every expiry boundary
-	addT := func(cs, count string) { timed = append(timed, job{cs: cs, count: count}) }
+	// --- 5. real time.  Only the nodes' clock needs real sleeping (the Redis clock is FastForward).
+	// ttl 300/400 ms; every lookup of an id is at most 0.5·ttl or at least 1.6·ttl after each
+	// registration of that id (modelSafe), and the harness judges a run only if the measured
+	// timeline confirms that with margin (timeline.go).
+	addT := func(b, ttls string, evs []string, count string) {
+		var tt []int
+		for _, x := range strings.Split(ttls, ",") {
+			v := 0
+			fmt.Sscanf(x, "%d", &v)
+			tt = append(tt, v)
+		}
+		if !modelSafe(tt, evs) {
+			panic("generator produced a timed case without margins: " + mk(b, ttls, evs))
+		}
+		timed = append(timed, job{cs: mk(b, ttls, evs), count: count})
+	}
+	reps := 1
+	if thorough {
+		reps = 4
+	}
 	for _, b := range backends {
-		for rep := 0; rep < 2; rep++ {
+		for rep := 0; rep < reps; rep++ {
 			rc := genRec(r, "T", false)
 			n, m := r.Intn(2), r.Intn(3)
 			// the nodes' clock passes the waiting period while the Redis key is still there: explicit check, then the record is gone
-			addT(mk(b, "150,150,0", []string{fmtRec("reg", n, rc), look(m, "T"), "advw:200", look(m, "T"), look((m+1)%3, "T")}), "gen:timed-explicit-check")
-			// everything ages together
-			addT(mk(b, "150,150,0", []string{fmtRec("reg", n, rc), "adv:100", look(m, "T"), "adv:100", look(m, "T")}), "gen:timed-lapse")
-			// stays live across several steps with the longer ttl, then lapses
-			addT(mk(b, "250,250,0", []string{fmtRec("reg", n, rc), "adv:100", look(m, "T"), "adv:100", look((m+1)%3, "T"), "adv:100", look(m, "T")}), "gen:timed-lapse")
+			addT(b, "300,300,0", []string{fmtRec("reg", n, rc), look(m, "T"), "advw:500", look(m, "T"), look((m+1)%3, "T")}, "gen:timed-explicit-check")
+			// everything ages together: live at 0.5·ttl, lapsed at 650 ms
+			addT(b, "300,300,0", []string{fmtRec("reg", n, rc), "adv:150", look(m, "T"), "adv:500", look(m, "T")}, "gen:timed-lapse")
+			addT(b, "400,400,0", []string{fmtRec("reg", n, rc), "adv:100", look(m, "T"), "adv:100", look((m+1)%3, "T"), "adv:500", look(m, "T")}, "gen:timed-lapse")
 			// re-registration after the lapse starts a new waiting period (and a replayed id does not see the old data)
 			rc2 := genRec(r, "T", false)
-			addT(mk(b, "150,150,0", []string{fmtRec("reg", n, rc), "adv:200", look(m, "T"), fmtRec("reg", 1-n, rc2), look(m, "T"), "adv:100", look(m, "T"), "advw:100", look(m, "T")}), "gen:timed-reregister")
+			addT(b, "300,300,0", []string{fmtRec("reg", n, rc), "adv:500", look(m, "T"), fmtRec("reg", 1-n, rc2), look(m, "T"), "adv:150", look(m, "T"), "advw:500", look(m, "T")}, "gen:timed-reregister")
 			// bridge opened, never served, waiting period lapses; the bridge end afterwards is harmless
-			addT(mk(b, "150,150,0", []string{fmtRec("open", n, rc), look(m, "T"), "adv:200", look(m, "T"), end(n, "T"), look(m, "T")}), "gen:timed-open")
+			addT(b, "300,300,0", []string{fmtRec("open", n, rc), look(m, "T"), "adv:500", look(m, "T"), end(n, "T"), look(m, "T")}, "gen:timed-open")
 		}
 	}
-	nTimed := 200
+	nTimed := 120
 	if thorough {
-		nTimed = 5000
+		nTimed = 2400
 	}
-	for i := 0; i < nTimed; i++ {
+	for i := 0; i < nTimed; {
 		b := vc.Pick(r, backends)
-		ttls := vc.Pick(r, []string{"150,250,0", "250,150,150", "150,150,150", "0,150,250"})
+		ttls := vc.Pick(r, []string{"300,400,0", "400,300,300", "300,300,300", "0,300,400"})
 		tids := []string{"T", "T", vc.Pick(r, idPool)}
 		n := 5 + r.Intn(7)
 		evs := []string{fmtRec("reg", r.Intn(3), genRec(r, "T", false))}
@@ -199,21 +216,31 @@ func gen(r *vc.Rand, thorough bool) (untimed, timed []job) {
 			case 7:
 				evs = append(evs, fmtRec("open", node, genRec(r, tid, false)))
 			case 8, 9, 10, 11:
-				if slept < 700 {
-					d := vc.Pick(r, []int{100, 100, 200})
+				if slept < 1500 {
+					d := vc.Pick(r, []int{100, 150, 650, 700})
 					slept += d
 					evs = append(evs, fmt.Sprintf("%s:%d", vc.Pick(r, []string{"adv", "advw", "advw"}), d), look(node, tid))
 				}
 			case 12:
-				evs = append(evs, fmt.Sprintf("advs:%d", vc.Pick(r, []int{100, 149, 150, 250, 30000})))
+				evs = append(evs, fmt.Sprintf("advs:%d", vc.Pick(r, []int{100, 299, 300, 400, 30000})))
 			case 13:
 				evs = append(evs, end(node, tid))
 			}
 		}
 		if slept == 0 {
-			evs = append(evs, "advw:200", look(r.Intn(3), "T"))
+			evs = append(evs, "advw:700", look(r.Intn(3), "T"))
 		}
-		addT(mk(b, ttls, evs), "gen:timed")
+		var tt []int
+		for _, x := range strings.Split(ttls, ",") {
+			v := 0
+			fmt.Sscanf(x, "%d", &v)
+			tt = append(tt, v)
+		}
+		if !modelSafe(tt, evs) {
+			continue // a lookup would fall between 0.5·ttl and 1.6·ttl after a registration: draw again
+		}
+		addT(b, ttls, evs, "gen:timed")
+		i++
 	}
 	return untimed, timed
 }
